@@ -333,8 +333,8 @@ pub fn run_c20(p: &Params) -> Outcome {
         let mut h = gen_vec_history(&mut rng, &g);
         // scripted tail: a stream dropped in the middle of a multi-diff batch, with and without
         // further traffic; a stream dropped while lagging; the vector dropped first
-        if rng.chance(1, 2) {
-            let s = h.ops.iter().filter(|o| matches!(o, HOp::Sub { .. })).count();
+        if rng.chance(1, 2) && !h.ops.iter().any(|o| matches!(o, HOp::DropVec | HOp::DropVecIntoInner)) {
+            let s = h.ops.iter().filter(|o| matches!(o, HOp::Sub { .. } | HOp::SubLazy { .. })).count();
             h.ops.push(HOp::Sub { batched: false });
             h.ops.push(HOp::V(VOp::Txn(vec![VOp::PushBack(1), VOp::PushBack(2), VOp::PushFront(3)], TxEnd::Commit)));
             if rng.chance(1, 2) {
